@@ -25,6 +25,10 @@ pub struct LayoutOpts {
   /// unusual but legal output shapes: two non-modifier keys, a modifier after a key, three
   /// trigger modifiers
   pub weird: bool,
+  /// derive some mappings from earlier ones (shared modifiers, chained outputs, outputs that are
+  /// another mapping's trigger or absorbed key, shared absorbing lists): interacting mappings are
+  /// where the state machine is most fragile
+  pub related: bool,
   pub absorbing: bool,
   pub norepeat: bool,
   pub special: bool,
@@ -36,6 +40,52 @@ pub struct LayoutOpts {
 
 fn uniq_push(v: &mut Vec<KeyCode>, k: KeyCode) { if !v.contains(&k) { v.push(k); } }
 
+/// Layout shaped like what the alias/row shorthands expand to in the shipped layouts: a few
+/// "alias keys" (layer keys or modifiers), each optionally mapped alone to nothing or to a
+/// modifier, and for every final key one chord per alias key with the same output, repeat mode and
+/// absorbing decision. A few unrelated mappings may follow.
+pub fn gen_motif_layout(rng: &mut Rng, o: &LayoutOpts) -> Layout {
+  let trig = if o.big { TRIG_POOL_BIG } else { TRIG_POOL };
+  let omods = if o.big { OUT_MODS_BIG } else { OUT_MODS };
+  let oact = if o.big { OUT_ACT_BIG } else { OUT_ACT };
+  let mut mappings: Vec<Mapping> = vec![];
+  let na = rng.range(1, 3);
+  let mut aliases: Vec<KeyCode> = vec![];
+  while aliases.len() < na { let k = rng.pick(trig); uniq_push(&mut aliases, k); }
+  for a in &aliases {
+    match rng.below(4) {
+      0 => mappings.push(Mapping { from: vec![*a], to: vec![], repeat: Repeat::Normal, absorbing: vec![] }),
+      1 => mappings.push(Mapping { from: vec![*a], to: vec![rng.pick(omods)], repeat: Repeat::Normal, absorbing: vec![] }),
+      _ => {}
+    }
+  }
+  let nf = rng.range(1, 3);
+  let mut finals: Vec<KeyCode> = vec![];
+  let mut guard = 0;
+  while finals.len() < nf && guard < 50 { guard += 1; let k = rng.pick(trig); if !aliases.contains(&k) { uniq_push(&mut finals, k); } }
+  for f in &finals {
+    let mut to: Vec<KeyCode> = vec![];
+    if rng.chance(1, 3) { to.push(rng.pick(omods)); }
+    if !rng.chance(1, 8) { let k = if rng.chance(1, 4) { *f } else { rng.pick(oact) }; uniq_push(&mut to, k); }
+    let absorb = o.absorbing && rng.chance(1, 2);
+    let repeat = if o.norepeat && rng.chance(1, 4) { Repeat::Disabled } else if o.special && rng.chance(1, 4) {
+      let mut keys = vec![]; for _ in 0..rng.below(3) { let k = if rng.chance(1, 3) { rng.pick(omods) } else { rng.pick(oact) }; uniq_push(&mut keys, k); }
+      Repeat::Special { keys, delay_ms: 100 + rng.below(100) as i32, interval_ms: 10 + rng.below(50) as i32 }
+    } else { Repeat::Normal };
+    for a in &aliases {
+      if rng.chance(1, 10) { continue; }
+      mappings.push(Mapping { from: vec![*a, *f], to: to.clone(), repeat: repeat.clone(), absorbing: if absorb { vec![*a] } else { vec![] } });
+    }
+    // now and then the plain key is remapped too, or a two-alias chord exists
+    if rng.chance(1, 4) { mappings.push(Mapping { from: vec![*f], to: vec![rng.pick(oact)], repeat: Repeat::Normal, absorbing: vec![] }); }
+    if aliases.len() >= 2 && rng.chance(1, 4) { mappings.push(Mapping { from: vec![aliases[0], aliases[1], *f], to: vec![rng.pick(oact)], repeat: Repeat::Normal, absorbing: if absorb { vec![aliases[0], aliases[1]] } else { vec![] } }); }
+  }
+  let mut o2 = o.clone(); o2.max_map = 2;
+  if rng.chance(1, 3) { mappings.extend(gen_layout(rng, &o2).mappings); }
+  mappings.truncate(if o.big { 12 } else { 9 });
+  Layout { mappings }
+}
+
 pub fn gen_layout(rng: &mut Rng, o: &LayoutOpts) -> Layout {
   let trig = if o.big { TRIG_POOL_BIG } else { TRIG_POOL };
   let omods = if o.big { OUT_MODS_BIG } else { OUT_MODS };
@@ -45,6 +95,20 @@ pub fn gen_layout(rng: &mut Rng, o: &LayoutOpts) -> Layout {
   for _ in 0..n {
     let nm = if o.weird && rng.chance(1, 6) { 3 } else { [0, 0, 1, 1, 1, 2][rng.below(6)] };
     let mut from: Vec<KeyCode> = vec![];
+    let base: Option<Mapping> = if o.related && !mappings.is_empty() && rng.chance(1, 2) { Some(rng.pick(&mappings)) } else { None };
+    if let Some(b) = &base {
+      let bm: &Mapping = b;
+      match rng.below(4) {
+        0 => { for k in &bm.from[..bm.from.len() - 1] { uniq_push(&mut from, *k); } }            // same modifiers, other final key
+        1 => { for k in &bm.from { uniq_push(&mut from, *k); } }                                   // the whole chord as prefix (extension)
+        2 => { if let Some(k) = bm.to.first() { uniq_push(&mut from, *k); } }                      // chained: triggered by what b outputs
+        _ => { if bm.from.len() > 1 { uniq_push(&mut from, bm.from[rng.below(bm.from.len() - 1)]); } } // one shared modifier
+      }
+      if from.len() > 3 { from.truncate(3); }
+      let want = from.len() + 1;
+      let mut guard = 0;
+      while from.len() < want && guard < 50 { let k = rng.pick(trig); uniq_push(&mut from, k); guard += 1; }
+    }
     while from.len() < nm + 1 { let k = rng.pick(trig); uniq_push(&mut from, k); }
     let mut to: Vec<KeyCode> = vec![];
     let kind = rng.below(10);
@@ -63,6 +127,16 @@ pub fn gen_layout(rng: &mut Rng, o: &LayoutOpts) -> Layout {
         }
       }
     }
+    if let Some(b) = &base {
+      // outputs that interact with the base mapping: one of its trigger keys, its absorbed key, or
+      // the very same output
+      match rng.below(5) {
+        0 => { let k = rng.pick(&b.from); if is_mod(&k) { let mut t2 = vec![k]; for x in &to { uniq_push(&mut t2, *x); } to = t2; } else if !to.iter().any(|x| !is_mod(x)) { to.push(k); } }
+        1 => { if let Some(k) = b.absorbing.first() { if is_mod(k) { let mut t2 = vec![*k]; for x in &to { uniq_push(&mut t2, *x); } to = t2; } else if to.is_empty() { to.push(*k); } } }
+        2 => { to = b.to.clone(); }
+        _ => {}
+      }
+    }
     let repeat = if o.norepeat && rng.chance(1, 4) { Repeat::Disabled }
       else if o.special && rng.chance(1, 4) {
         let mut keys = vec![];
@@ -72,7 +146,7 @@ pub fn gen_layout(rng: &mut Rng, o: &LayoutOpts) -> Layout {
         Repeat::Special { keys, delay_ms: d, interval_ms: i }
       } else { Repeat::Normal };
     let mut absorbing = vec![];
-    if o.absorbing && from.len() > 1 && rng.chance(1, 3) {
+    if o.absorbing && from.len() > 1 && rng.chance(1, if o.related { 2 } else { 3 }) {
       for k in &from[..from.len() - 1] { if rng.chance(2, 3) { absorbing.push(*k); } }
     }
     mappings.push(Mapping { from, to, repeat, absorbing });
@@ -85,7 +159,8 @@ pub fn gen_layout(rng: &mut Rng, o: &LayoutOpts) -> Layout {
 pub fn gen_dist_layout(rng: &mut Rng, o: &LayoutOpts) -> Layout {
   let mut o = o.clone();
   o.max_map = o.max_map.min(DIST.len());
-  let mut l = gen_layout(rng, &o);
+  let mut l = if rng.chance(1, 3) { gen_motif_layout(rng, &o) } else { gen_layout(rng, &o) };
+  l.mappings.truncate(DIST.len());
   for (i, m) in l.mappings.iter_mut().enumerate() {
     let keep_mods: Vec<KeyCode> = m.to.iter().filter(|k| is_mod(k)).cloned().collect();
     let r = rng.below(10);
